@@ -117,3 +117,40 @@ func VerifC15_substr_1_up() {
 	}
 	verifReach("C15/substr/end")
 }
+
+// leftpad/rightpad count CHARACTERS of both the input and the pad string: the result is the input
+// with k whole copies of the pad on the left/right, k = max(0, (n - chars(s)) / chars(pad)), so
+// its character count never exceeds max(n, chars(s)) and falls short of n by less than chars(pad).
+// s from a palette of four; pad: 1..2 SYMBOLIC bytes (so one 2-byte character, two 1-byte characters,
+// invalid bytes...); n in 0..5.
+//verif:opts unwind=300 maxpaths=400000
+func VerifC15_pad_counts_characters() {
+	s := []string{"", "a", "\xc3\xa9", "\xff"}[verifChoice("s", 4)] // empty, ASCII, one 2-byte character, one invalid byte
+	pad := verifString("pad", 1+verifChoice("padlen", 2))
+	// target length enumerated (all lengths become concrete per path): quick {0,2,5}, thorough 0..5
+	n := int64([]int{0, 2, 5}[verifChoice("n", 3)])
+	if verifTier() > 0 {
+		n = int64(verifChoice("n_thorough", 6))
+	}
+	sc := int64(len(c15Chars(s)) - 1)
+	pc := int64(len(c15Chars(pad)) - 1)
+	k := int64(0)
+	if n > sc {
+		k = (n - sc) / pc
+	}
+	kc := int(verifConcretize(k, 16))
+	want := ""
+	for i := 0; i < kc; i++ {
+		want += pad
+	}
+	left := verifChoice("left", 2) == 1
+	var out *mlrval.Mlrval
+	if left {
+		out = BIF_leftpad(mlrval.FromString(s), mlrval.FromInt(n), mlrval.FromString(pad))
+		verifAssert(out.String() == want+s, "C15/pad/left-k-whole-copies-counted-in-characters")
+	} else {
+		out = BIF_rightpad(mlrval.FromString(s), mlrval.FromInt(n), mlrval.FromString(pad))
+		verifAssert(out.String() == s+want, "C15/pad/right-k-whole-copies-counted-in-characters")
+	}
+	verifReach("C15/pad/end")
+}
